@@ -106,6 +106,25 @@ pub fn field(key: &str, json: String) {
     })
 }
 
+/// Append a JSON value to a list-valued field of the current dump (the list is created by the
+/// first call).
+pub fn append(key: &str, json: String) {
+    DUMP.with(|d| {
+        if let Some(dump) = d.borrow_mut().as_mut() {
+            for (k, v) in dump.fields.iter_mut() {
+                if k == key {
+                    v.pop();
+                    v.push(',');
+                    v.push_str(&json);
+                    v.push(']');
+                    return;
+                }
+            }
+            dump.fields.push((key.to_string(), format!("[{}]", json)));
+        }
+    })
+}
+
 /// Record a string-valued field of the current dump.
 pub fn field_str(key: &str, value: &str) {
     field(key, json_string(value))
